@@ -252,26 +252,31 @@ func hostClass(p Prog) string {
 	for _, m := range hostMethodSet(p.Types, t, ptr) {
 		ms[m.Name] = true
 	}
+	recvPtr := map[string]bool{}
+	for _, m := range hostMethodSet(p.Types, t, ptr) {
+		recvPtr[m.Name] = m.Ptr
+	}
 	for _, name := range hostMethods[kind] {
 		os := hostOccs(p.Types, t, name)
-		first := -1
-		for i, o := range os {
+		anyMeth := false
+		for _, o := range os {
 			if o.meth {
-				first = i
-				break
+				anyMeth = true
 			}
 		}
 		if !ms[name] {
-			if first >= 0 {
+			if anyMeth {
 				return "host-implements-names-only"
 			}
 			return "host-missing-method"
 		}
-		for i, o := range os {
-			if i != first && o.depth <= os[first].depth {
-				return "host-dfs-not-shallowest"
-			}
-		}
+	}
+	// F05-18: the wrappers of all the methods are made when the value is converted to the host
+	// interface, and since 3081633 a wrapper binds (copies) a value receiver when it is made: a
+	// value-receiver method reached through a pointer does not see what the pointer-receiver methods
+	// of the same interface did meanwhile. Visible with sort.Interface (Swap prints its receiver).
+	if kind == "sort" && !recvPtr["Swap"] && (recvPtr["Len"] || recvPtr["Less"]) {
+		return "host-value-receiver-bound-at-conversion"
 	}
 	return "in-domain"
 }
